@@ -1,9 +1,8 @@
 SPECIFICATION Spec
 CONSTANTS MaxN = 3
- Fillers = {0, 1, 119, 120, 121, 122, 123, 124, 125, 126, 127, 128, 129}
- Consts = {0}
+ Fillers = {0, 1, 70, 72, 118, 120, 122, 124, 126, 127, 128, 130}
+ Consts <- ConstsC
 INVARIANT WidthSafe
 INVARIANT Decided
 INVARIANT NoLivelock
-PROPERTY Terminates
 CHECK_DEADLOCK FALSE
